@@ -241,6 +241,12 @@ public:
                     break;
                 }
             }
+            if (JSONCONS_UNLIKELY(ec))
+            {
+                // an error reported by the visitor (e.g. an encoder that needs lengths) ends the parse like one of the parser's own
+                more_ = false;
+                return;
+            }
         }
     }
 
